@@ -200,6 +200,8 @@ pub fn bind(a: &[String]) -> Value {
         "content-length-buffered" => ("PUT", "/bkt", cfg, vec![("content-length".into(), "500".into())], "a buffered 97-byte body with Content-Length: 500"),
         "content-length-empty" => ("PUT", "/bkt", "", vec![("content-length".into(), "100".into())], "an empty body with Content-Length: 100"),
         "duplicate-query" => ("GET", "/bkt/key?versionId=1&versionId=2", "", vec![], "versionId sent twice"),
+        "duplicate-query-timestamp" => ("GET", "/bkt/key?response-expires=Tue%2C%2027%20Mar%202007%2019%3A36%3A42%20GMT&response-expires=Tue%2C%2027%20Mar%202007%2019%3A36%3A42%20GMT", "", vec![], "response-expires sent twice"),
+        "duplicate-header-timestamp" => ("GET", "/bkt/key", "", vec![("if-modified-since".into(), "Tue, 27 Mar 2007 19:36:42 GMT".into()), ("if-modified-since".into(), "Wed, 28 Mar 2007 19:36:42 GMT".into())], "If-Modified-Since sent twice"),
         _ => ("GET", "/bkt/key", "", vec![("range".into(), "bytes=0-1".into()), ("range".into(), "bytes=2-3".into())], "Range sent twice"),
     };
     let o = call(method, uri, &headers, body.as_bytes().to_vec(), "ok_default");
